@@ -89,6 +89,7 @@ type vHKind struct {
 	Buf      int  `json:"buf"`
 	Then     int  `json:"then"`     // for vHStall: vHEcho or vHReadN (with N)
 	Deadline bool `json:"deadline"` // first Read with an expired deadline
+	Gate     bool `json:"gate"`     // vHIdle: the idle timer is only made to expire after a vPreIdle action
 }
 
 const (
@@ -96,6 +97,7 @@ const (
 	vPreWaitEnded // wait until the newest association of Client has seen EOF or returned, then settle
 	vPreRelease   // release stalled/idle handlers of Client, then settle
 	vPreSettle    // wait for quiescence
+	vPreIdle      // let the gated idle handlers of Client expire now, then settle
 )
 
 type vSend struct {
@@ -103,6 +105,9 @@ type vSend struct {
 	Size   int `json:"s"`
 	Pre    int `json:"pre"`
 	Expect int `json:"exp"` // 1: this datagram must be read by an association newer than the one that ended
+	// Targets: the clients a vPreRelease / vPreIdle action applies to (default: Client); NoSend: action only
+	Targets []int `json:"t,omitempty"`
+	NoSend  bool  `json:"nosend,omitempty"`
 }
 
 type vPlan struct {
@@ -167,6 +172,33 @@ func vC09Corpus() []vPlan {
 	for i := 0; i < 30; i++ {
 		p.Sends = append(p.Sends, mk(0, 48))
 	}
+	ps = append(ps, p)
+	// idle expiry while closeCh is full: the loop is blocked on the full readCh of a handler that does not
+	// read (client 1), ten short-lived associations (clients 2..11) finish and fill closeCh, the victim
+	// (client 0) idles out at that moment; the loop then gets going again and works the notifications off;
+	// the victim's next datagram, sent before its old handler has returned, must get a fresh association
+	p = vPlan{Name: "idle-expiry-while-closech-full", NClients: 12, Kinds: map[string]vHKind{
+		"0/0": {Mode: vHIdle, Buf: 9000, Gate: true}, "1/*": {Mode: vHStall, Then: vHEcho, Buf: 9000}}}
+	closers := []int{}
+	for c := 2; c < 12; c++ {
+		p.Kinds[fmt.Sprintf("%d/*", c)] = vHKind{Mode: vHStall, Then: vHReadN, N: 0}
+		closers = append(closers, c)
+	}
+	p.Sends = []vSend{mk(0, 64)}
+	for _, c := range closers {
+		p.Sends = append(p.Sends, mk(c, 32))
+	}
+	p.Sends = append(p.Sends, vSend{Client: 1, Size: 48, Pre: vPreSettle})
+	for i := 0; i < 5; i++ {
+		p.Sends = append(p.Sends, mk(1, 48))
+	}
+	p.Sends = append(p.Sends,
+		vSend{Pre: vPreSettle, NoSend: true},
+		vSend{Pre: vPreRelease, Targets: closers, NoSend: true},
+		vSend{Pre: vPreIdle, Targets: []int{0}, NoSend: true},
+		vSend{Pre: vPreRelease, Targets: []int{1}, NoSend: true},
+		vSend{Client: 0, Size: 80, Pre: vPreWaitEnded, Expect: 1},
+		mk(0, 81))
 	ps = append(ps, p)
 	// one interleaved plan per client address set (clients differ in port / IP / IPv6 zone / family / type only)
 	for k := 1; k < vC09AddrKinds; k++ {
@@ -351,6 +383,7 @@ type vC09Assoc struct {
 	endPos  int // log position of the first EOF / return (-1: none)
 	newPos  int
 	release chan struct{}
+	idleGo  chan struct{}
 	pc      *packetConn
 	inRead  atomic.Bool
 }
@@ -515,7 +548,7 @@ func (r *vC09Run) handle(cx *Connection) error {
 	pconn, _ := cx.Conn.(*packetConn)
 	client := r.pc.clientOf(cx.RemoteAddr())
 	l.mu.Lock()
-	a := &vC09Assoc{ord: len(l.assocs), client: client, cord: len(l.byClient[client]), endPos: -1, release: make(chan struct{}), pc: pconn}
+	a := &vC09Assoc{ord: len(l.assocs), client: client, cord: len(l.byClient[client]), endPos: -1, release: make(chan struct{}), idleGo: make(chan struct{}), pc: pconn}
 	// property: a new association for a client means the previous one has ended
 	if prev := l.byClient[client]; len(prev) > 0 && prev[len(prev)-1].endPos < 0 {
 		l.fail("C09:fresh:live-association-dropped", fmt.Sprintf("client %d: association #%d was started while association #%d had neither seen EOF nor returned (two live virtual connections for one client)", client, a.cord, a.cord-1))
@@ -567,6 +600,13 @@ func (r *vC09Run) handle(cx *Connection) error {
 			idling = true
 			stop := make(chan struct{})
 			go func() {
+				if k.Gate {
+					select {
+					case <-stop:
+						return
+					case <-a.idleGo:
+					}
+				}
 				for {
 					select {
 					case <-stop:
@@ -724,6 +764,23 @@ func vC09ExecOnce(plan *vPlan, settle time.Duration) vC09Result {
 		}
 		l.mu.Unlock()
 	}
+	idleNow := func(client int) {
+		l.mu.Lock()
+		for _, a := range l.byClient[client] {
+			select {
+			case <-a.idleGo:
+			default:
+				close(a.idleGo)
+			}
+		}
+		l.mu.Unlock()
+	}
+	targets := func(s vSend) []int {
+		if len(s.Targets) > 0 {
+			return s.Targets
+		}
+		return []int{s.Client}
+	}
 	waitEnded := func(client int) int {
 		end := time.Now().Add(400 * time.Millisecond)
 		for time.Now().Before(end) {
@@ -765,11 +822,22 @@ func vC09ExecOnce(plan *vPlan, settle time.Duration) vC09Result {
 			l.waitQuiet(settle, time.Second)
 			time.Sleep(5 * settle)
 		case vPreRelease:
-			release(s.Client)
+			for _, c := range targets(s) {
+				release(c)
+			}
 			l.waitQuiet(settle, time.Second)
 			time.Sleep(2 * settle)
+		case vPreIdle:
+			for _, c := range targets(s) {
+				idleNow(c)
+			}
+			l.waitQuiet(settle, time.Second)
+			time.Sleep(6 * settle)
 		case vPreSettle:
 			l.waitQuiet(settle, time.Second)
+		}
+		if s.NoSend {
+			continue
 		}
 		b := vC09Payload(s.Client, id, s.Size)
 		if plan.Real {
